@@ -5,12 +5,31 @@ case = {texts: [yaml...], probes: [python expressions over cfg / root / calls]}"
 import sys, json
 
 
+def plain(v):
+    if isinstance(v, dict):
+        return {str(k): plain(a) for k, a in v.items()}
+    if isinstance(v, (list, tuple)):
+        return [plain(a) for a in v]
+    if isinstance(v, (int, float, str, bool)) or v is None:
+        return v
+    return repr(type(v).__name__)
+
+
 def run_case(case):
     from . import evalcorr
     from awesomeyaml.builder import Builder
     from awesomeyaml.config import Config
+    from awesomeyaml.eval_context import EvalContext
     evalcorr.install_vmod()
     del evalcorr.CALL_LOG[:]
+    if 'script' in case:
+        # a multi-step scenario written by the check itself (several builds / evaluations in one process); it sets `result`
+        env = dict(Builder=Builder, Config=Config, EvalContext=EvalContext, plain=plain, calls=evalcorr.CALL_LOG, Rec=evalcorr.Rec)
+        try:
+            exec(case['script'], env)
+            return dict(kind='ok', calls=list(evalcorr.CALL_LOG), probes=[], result=env.get('result'))
+        except Exception as e:
+            return dict(kind='script:' + type(e).__name__, err=str(e)[:300])
     try:
         b = Builder()
         for i, t in enumerate(case['texts']):
